@@ -379,27 +379,73 @@ func checkAdminPredicates(c *km.Ctx, s *km.Sem) {
 	if nNew == 0 {
 		r.AnchorLost("R-C08-2", "construction of the admin cache")
 	}
-	if fn := c.MustFunc("R-C08-2", "keymasterd/admincache", "(*Cache).isValid"); fn != nil {
-		n := 0
-		for _, rc := range s.RetCases(fn) {
-			v := km.Unwrap(rc.Results[0])
-			if cst, ok := v.(*ssa.Const); ok {
-				n++
-				r.Add("R-C08-2", km.FuncName(fn), "constant result", posOf(c, rc.Ret), "constant results are false", km.ValStr(cst), km.ValStr(cst) == "false")
-				continue
-			}
-			b, ok := v.(*ssa.BinOp)
-			good := false
-			if ok && (b.Op == token.LSS || b.Op == token.LEQ) {
-				if sub, ok := b.X.(*ssa.Call); ok && km.CalleeFull(sub.Common()) == "(time.Time).Sub" && mentionsField(b.Y, "maxDuration") {
-					good = true
+	// the validity test of the cache: whatever function Get's second result comes from
+	if get := c.MustFunc("R-C08-2", "keymasterd/admincache", "(*Cache).Get"); get != nil {
+		var vcall *ssa.Call
+		var find func(fn *ssa.Function, depth int)
+		find = func(fn *ssa.Function, depth int) {
+			for _, rc := range s.RetCases(fn) {
+				if len(rc.Results) != 2 {
+					continue
+				}
+				v := km.Unwrap(rc.Results[1])
+				cl, idx := callRes(v)
+				if cl == nil {
+					continue
+				}
+				g := km.StaticCallee(cl.Common())
+				if g == nil || g.Blocks == nil || !c.InModule(g) {
+					continue
+				}
+				if g.Signature.Results().Len() == 2 && idx == 1 && depth < 3 {
+					find(g, depth+1) // a thin wrapper around the real getter
+					continue
+				}
+				if g.Signature.Results().Len() == 1 {
+					vcall = cl
 				}
 			}
-			n++
-			r.Add("R-C08-2", km.FuncName(fn), "validity test", posOf(c, rc.Ret), "valid iff now.Sub(ts) < maxDuration", km.ValStr(v), good)
 		}
-		if n == 0 {
-			r.AnchorLost("R-C08-2", "returns of admincache isValid")
+		find(get, 0)
+		if vcall == nil {
+			r.AnchorLost("R-C08-2", "validity function behind the second result of admincache Get")
+		} else {
+			fn := km.StaticCallee(vcall.Common())
+			args := km.CallArgs(vcall.Common())
+			isMax := func(v ssa.Value) bool {
+				if mentionsField(v, "maxDuration") {
+					return true
+				}
+				if p, ok := km.Unwrap(v).(*ssa.Parameter); ok {
+					for i, q := range fn.Params {
+						if q == p && i < len(args) {
+							return mentionsField(args[i], "maxDuration")
+						}
+					}
+				}
+				return false
+			}
+			n := 0
+			for _, rc := range s.RetCases(fn) {
+				v := km.Unwrap(rc.Results[0])
+				if cst, ok := v.(*ssa.Const); ok {
+					n++
+					r.Add("R-C08-2", km.FuncName(fn), "constant result", posOf(c, rc.Ret), "constant results are false", km.ValStr(cst), km.ValStr(cst) == "false")
+					continue
+				}
+				b, ok := v.(*ssa.BinOp)
+				good := false
+				if ok && (b.Op == token.LSS || b.Op == token.LEQ) {
+					if sub, ok := b.X.(*ssa.Call); ok && km.CalleeFull(sub.Common()) == "(time.Time).Sub" && isMax(b.Y) {
+						good = true
+					}
+				}
+				n++
+				r.Add("R-C08-2", km.FuncName(fn), "validity test", posOf(c, rc.Ret), "valid iff now.Sub(ts) < maxDuration", km.ValStr(v), good)
+			}
+			if n == 0 {
+				r.AnchorLost("R-C08-2", "returns of the admincache validity function")
+			}
 		}
 	}
 	// --- _IsAdminUser: true only from a match
